@@ -2,6 +2,7 @@ package main
 
 import (
 	"fmt"
+	"sort"
 	"strings"
 
 	"acra-vh/vh"
@@ -9,20 +10,35 @@ import (
 	"github.com/cossacklabs/acra/keystore/v2/keystore/api"
 	"github.com/cossacklabs/acra/keystore/v2/keystore/asn1"
 	"github.com/cossacklabs/acra/keystore/v2/keystore/filesystem/backend"
+	backendAPI "github.com/cossacklabs/acra/keystore/v2/keystore/filesystem/backend/api"
 )
 
 func init() { register("c17", "Model.RunKeystoreWrite", runC17) }
 
 // ---------- cooperative scheduler over REAL keystore handles sharing one backend ----------
+//
+// Every handle (writer or reader) is a goroutine around a real v2 key store over its own wrapper of
+// the shared in-memory back end. Before EVERY back-end call the goroutine announces the call and
+// waits for the scheduler, so a handle can be paused between any two of its back-end calls
+// (including between an RUnlock and the following Lock). Handles start WITHOUT a key ring object:
+// OpenKeyRingRW / the generate-key entry points are scheduled like everything else, so programs can
+// start from a ring that does not exist yet.
+
+type c17Op struct {
+	o          kop
+	res, val   int
+	start, end int // scheduler turn in which the operation started / returned
+}
 
 type c17Writer struct {
 	p     *kproc
 	prog  []kop
 	req   chan string // the goroutine announces its next back-end call ("" = finished)
 	grant chan bool
-	outs  [][2]int
+	ops   []c17Op
 	pend  string
 	done  bool
+	turn  int // set by the scheduler before every grant
 }
 
 type c17Reader struct {
@@ -33,6 +49,7 @@ type c17Reader struct {
 	pend  string
 	done  bool
 	obs   []*vh.KswFile // what every OpenKeyRing saw (nil = failed)
+	miss  []bool        // the failure was ErrNotExist
 	errs  []string
 }
 
@@ -64,125 +81,383 @@ func (l *c17Lock) apply(i int, call string) {
 	}
 }
 
-// c17Run runs the writers' programs (and one reader) under the requested schedule followed by a fair
-// tail; returns the sequence of granted WRITER steps (what the model replays).
-func c17Run(inner *backend.InMemory, rid int, progs [][]kop, reads int, sched []int) (ws []*c17Writer, rd *c17Reader, granted []int) {
-	for _, prog := range progs {
-		w := &c17Writer{p: newKproc(inner), prog: prog, req: make(chan string), grant: make(chan bool)}
-		// every writer opens the ring first (serially, not scheduled)
-		w.p.do(kop{kind: opOpen, slot: 0, rid: rid})
-		ws = append(ws, w)
+// call tags = Model.RunKeystoreWrite.call_tag
+var c17Tags = map[string]int{"Lock": 0, "Unlock": 1, "RLock": 2, "RUnlock": 3, "Get": 4, "Put": 5, "Remove": 6, "Rename": 7, "ListAll": 8}
+
+func c17Tag(call string) int {
+	if t, ok := c17Tags[call]; ok {
+		return t
 	}
-	rd = &c17Reader{h: vh.NewKswHandle(inner), reads: reads, req: make(chan string), grant: make(chan bool)}
-	for _, w := range ws {
+	return 9
+}
+
+// one granted step: who, which back-end call, and who else could have been chosen
+// (order = the handle that ran last first if it can go on, then the others ascending)
+type c17Step struct {
+	h          int
+	call       string
+	order      []int
+	curEnabled bool
+}
+
+// what anyone reading the ring file at a moment when the exclusive lock is free would get
+type c17Obs struct {
+	turn int
+	f    *vh.KswFile // nil = the ring file does not exist
+}
+
+type c17Trace struct {
+	ws     []*c17Writer
+	rd     *c17Reader
+	steps  []c17Step
+	obs    []c17Obs
+	obsErr string
+	stuck  bool
+}
+
+func (t *c17Trace) choices() []int {
+	out := make([]int, len(t.steps))
+	for i, s := range t.steps {
+		out[i] = s.h
+	}
+	return out
+}
+
+// c17Exec runs the writers' programs (and a reader doing `reads` OpenKeyRing calls, if any) on ring
+// rid; choose picks the next handle among the ones that can step.
+func c17Exec(inner *backend.InMemory, rid int, progs [][]kop, reads int, choose func(k int, order []int) int) *c17Trace {
+	tr := &c17Trace{}
+	for _, prog := range progs {
+		tr.ws = append(tr.ws, &c17Writer{p: newKproc(inner), prog: prog, req: make(chan string), grant: make(chan bool)})
+	}
+	nw := len(tr.ws)
+	for _, w := range tr.ws {
 		w := w
 		w.p.h.B.Before = func(call string) { w.req <- strings.SplitN(call, " ", 2)[0]; <-w.grant }
 		go func() {
 			for _, o := range w.prog {
-				res, val := w.p.do(o)
-				w.outs = append(w.outs, [2]int{res, val})
+				op := c17Op{o: o, start: w.turn}
+				op.res, op.val = w.p.do(o)
+				op.end = w.turn
+				w.ops = append(w.ops, op)
 			}
 			w.req <- ""
 		}()
 	}
-	rd.h.B.Before = func(call string) { rd.req <- strings.SplitN(call, " ", 2)[0]; <-rd.grant }
-	clean := vh.NewKswHandle(inner)
-	go func() {
-		for i := 0; i < rd.reads; i++ {
-			r, err := rd.h.FS.OpenKeyRing(vh.KswRingPath(rid))
-			if err != nil {
-				rd.obs = append(rd.obs, nil)
-				rd.errs = append(rd.errs, err.Error())
-				continue
+	nh := nw
+	if reads > 0 {
+		rd := &c17Reader{h: vh.NewKswHandle(inner), reads: reads, req: make(chan string), grant: make(chan bool)}
+		tr.rd = rd
+		nh = nw + 1
+		rd.h.B.Before = func(call string) { rd.req <- strings.SplitN(call, " ", 2)[0]; <-rd.grant }
+		go func() {
+			for i := 0; i < rd.reads; i++ {
+				r, err := rd.h.FS.OpenKeyRing(vh.KswRingPath(rid))
+				if err != nil {
+					rd.obs = append(rd.obs, nil)
+					rd.miss = append(rd.miss, err == backendAPI.ErrNotExist)
+					rd.errs = append(rd.errs, err.Error())
+					continue
+				}
+				cur, keys := vh.KswView(r)
+				rd.obs = append(rd.obs, &vh.KswFile{Rid: rid, Valid: true, Cur: cur, Keys: keys})
+				rd.miss = append(rd.miss, false)
 			}
-			cur, keys := vh.KswView(r)
-			rd.obs = append(rd.obs, &vh.KswFile{Rid: rid, Valid: true, Cur: cur, Keys: keys})
-		}
-		rd.req <- ""
-	}()
-	_ = clean
+			rd.req <- ""
+		}()
+	}
+	clean := vh.NewKswHandle(inner)
 	lock := &c17Lock{excl: -1, shared: map[int]bool{}}
-	nw := len(ws)
 	wait := func(i int) {
 		if i < nw {
-			ws[i].pend = <-ws[i].req
-			ws[i].done = ws[i].pend == ""
+			tr.ws[i].pend = <-tr.ws[i].req
+			tr.ws[i].done = tr.ws[i].pend == ""
 		} else {
-			rd.pend = <-rd.req
-			rd.done = rd.pend == ""
+			tr.rd.pend = <-tr.rd.req
+			tr.rd.done = tr.rd.pend == ""
 		}
 	}
-	for i := 0; i <= nw; i++ {
-		wait(i)
-	}
-	step := func(i int) {
-		var pend string
-		var done bool
+	state := func(i int) (string, bool) {
 		if i < nw {
-			pend, done = ws[i].pend, ws[i].done
-		} else {
-			pend, done = rd.pend, rd.done
+			return tr.ws[i].pend, tr.ws[i].done
 		}
-		if done || !lock.grantable(i, pend) {
+		return tr.rd.pend, tr.rd.done
+	}
+	observe := func(turn int) {
+		if lock.excl >= 0 {
 			return
 		}
-		lock.apply(i, pend)
-		if i < nw {
-			granted = append(granted, i)
-			ws[i].grant <- true
-		} else {
-			rd.grant <- true
+		fs, err := vh.KswAbstract(inner, clean)
+		if err != nil {
+			tr.obsErr = err.Error()
+			return
 		}
+		var f *vh.KswFile
+		if p := ringOf(fs, 0, rid); p != nil {
+			c := *p
+			f = &c
+		}
+		tr.obs = append(tr.obs, c17Obs{turn, f})
+	}
+	for i := 0; i < nh; i++ {
 		wait(i)
 	}
-	for _, i := range sched {
-		step(i)
-	}
-	for round := 0; round < 64; round++ { // fair tail
-		all := rd.done
-		for _, w := range ws {
-			all = all && w.done
+	observe(0)
+	cur := -1
+	for k := 0; k < 4096; k++ {
+		var order []int
+		curEnabled := false
+		if cur >= 0 {
+			if pend, done := state(cur); !done && lock.grantable(cur, pend) {
+				order = append(order, cur)
+				curEnabled = true
+			}
 		}
-		if all {
+		allDone := true
+		for i := 0; i < nh; i++ {
+			pend, done := state(i)
+			allDone = allDone && done
+			if i != cur && !done && lock.grantable(i, pend) {
+				order = append(order, i)
+			}
+		}
+		if len(order) == 0 {
+			tr.stuck = !allDone
 			break
 		}
-		for i := 0; i <= nw; i++ {
-			step(i)
+		i := choose(k, order)
+		pend, _ := state(i)
+		lock.apply(i, pend)
+		tr.steps = append(tr.steps, c17Step{h: i, call: pend, order: order, curEnabled: curEnabled})
+		if i < nw {
+			tr.ws[i].turn = k + 1
+			tr.ws[i].grant <- true
+		} else {
+			tr.rd.grant <- true
 		}
+		wait(i)
+		cur = i
+		observe(k + 1)
 	}
-	return
+	return tr
 }
 
-func coqWop(o kop) string {
+// c17Prefix: follow the given choices, then never preempt (go on with the handle that ran last
+// while it can, else the lowest one that can step).
+func c17Prefix(prefix []int) func(int, []int) int {
+	return func(k int, order []int) int {
+		if k < len(prefix) {
+			for _, i := range order {
+				if i == prefix[k] {
+					return i
+				}
+			}
+		}
+		return order[0]
+	}
+}
+
+// c17Wish: a requested sequence of handles; entries of handles that cannot step are skipped.
+func c17Wish(wish []int) func(int, []int) int {
+	pos := 0
+	return func(k int, order []int) int {
+		for pos < len(wish) {
+			x := wish[pos]
+			pos++
+			for _, i := range order {
+				if i == x {
+					return i
+				}
+			}
+		}
+		return order[0]
+	}
+}
+
+// c17Explore enumerates schedules depth first: at every step every handle that can step is an
+// alternative. bound < 0: ALL schedules (at the granularity of back-end calls; steps of blocked
+// handles do not exist). bound >= 0: all schedules with at most `bound` preemptions (a preemption =
+// switching away from a handle that could go on). complete = the enumeration ended within budget.
+func c17Explore(run func(prefix []int) *c17Trace, bound, budget int) (trs []*c17Trace, complete bool) {
+	prefix := []int{}
+	for {
+		if len(trs) >= budget {
+			return trs, false
+		}
+		tr := run(prefix)
+		trs = append(trs, tr)
+		pre := make([]int, len(tr.steps)+1) // preemptions before step k
+		for k, s := range tr.steps {
+			pre[k+1] = pre[k]
+			if s.curEnabled && s.h != s.order[0] {
+				pre[k+1]++
+			}
+		}
+		found := false
+		for k := len(tr.steps) - 1; k >= 0 && !found; k-- {
+			s := tr.steps[k]
+			idx := 0
+			for j, x := range s.order {
+				if x == s.h {
+					idx = j
+				}
+			}
+			for j := idx + 1; j < len(s.order); j++ {
+				cost := 0
+				if s.curEnabled {
+					cost = 1
+				}
+				if bound >= 0 && pre[k]+cost > bound {
+					continue
+				}
+				prefix = append(append([]int{}, tr.choices()[:k]...), s.order[j])
+				found = true
+				break
+			}
+		}
+		if !found {
+			return trs, true
+		}
+	}
+}
+
+func coqHop(o kop) string {
+	switch o.kind {
+	case opOpen:
+		return fmt.Sprintf("HOpen %d", o.rid)
+	case opGen:
+		return fmt.Sprintf("HGen %d %d", o.rid, o.ord)
+	case opDestroyCur:
+		return fmt.Sprintf("HDestroyCur %d", o.rid)
+	}
 	s := o.Coq() // "KRing <slot> (<wop>)"
-	return s[strings.Index(s, "("):]
+	return "HRing " + s[strings.Index(s, "("):]
 }
 
-// all sequences with a zeros and b ones
-func interleavings(a, b int) [][]int {
-	if a == 0 && b == 0 {
-		return [][]int{{}}
-	}
-	var out [][]int
-	if a > 0 {
-		for _, t := range interleavings(a-1, b) {
-			out = append(out, append([]int{0}, t...))
+func c17ProgString(progs [][]kop) string {
+	var ps []string
+	for _, p := range progs {
+		var os []string
+		for _, o := range p {
+			os = append(os, coqHop(o))
 		}
+		ps = append(ps, "["+strings.Join(os, "; ")+"]")
 	}
-	if b > 0 {
-		for _, t := range interleavings(a, b-1) {
-			out = append(out, append([]int{1}, t...))
+	return "[" + strings.Join(ps, "; ") + "]"
+}
+
+// ---------- generators ----------
+
+// c17CreationPrograms: short programs of a handle that starts WITHOUT the ring: OpenKeyRingRW alone,
+// followed by AddKey, by AddKey+SetCurrent, the generate-key entry point of the key store
+// (open+AddKey+SetCurrent in one call), the destroy entry point (opens = creates, then fails).
+func c17CreationPrograms(ord *int, thorough bool) [][]kop {
+	next := func() int { *ord++; return *ord }
+	ps := [][]kop{
+		{{kind: opOpen, rid: 1}},
+		{{kind: opOpen, rid: 1}, {kind: opAdd, ord: next()}},
+		{{kind: opOpen, rid: 1}, {kind: opAdd, ord: next()}, {kind: opSetCur, seq: 1}},
+		{{kind: opGen, rid: 1, ord: next()}},
+		{{kind: opDestroyCur, rid: 1}},
+	}
+	if thorough {
+		ps = append(ps,
+			[]kop{{kind: opOpen, rid: 1}, {kind: opAdd, ord: next()}, {kind: opSetCur, seq: 2}, {kind: opAdd, ord: next()}},
+			[]kop{{kind: opGen, rid: 1, ord: next()}, {kind: opGen, rid: 1, ord: next()}},
+			[]kop{{kind: opOpen, rid: 1}, {kind: opAdd, ord: next()}, {kind: opDestroy, seq: 1}},
+		)
+	}
+	return ps
+}
+
+// fresh copies of programs with new key ordinals (two handles never add the same key material)
+func c17Fresh(p []kop, ord *int) []kop {
+	out := append([]kop{}, p...)
+	for i := range out {
+		if out[i].kind == opAdd || out[i].kind == opGen {
+			*ord++
+			out[i].ord = *ord
 		}
 	}
 	return out
 }
 
-// runC17: two (sometimes three) writers with their own handles and key ring objects on ONE ring of
-// one shared backend, plus a reader, under schedules at the granularity of back-end calls.
+// runC17: (A) creation races - two (thorough: also three) handles racing on a ring that does not
+// exist yet, under EVERY schedule at the granularity of back-end calls (if the enumeration does not
+// end within the budget: additionally every schedule with at most one preemption); (B) two or
+// three writers on an existing ring with sampled schedules and a scheduled reader, plus every
+// schedule (or every single-preemption schedule) of each scenario.
 func runC17(rep *vh.Report, r *vh.Rng, n int, thorough bool) {
+	c17Reported = map[string]int{}
 	ord := 1000
-	for sc := 0; sc < n; sc++ {
-		// history: a ring with a few keys
+	budget, budget1 := 40, 64
+	if thorough {
+		budget, budget1 = 1000, 400
+	}
+	explore := func(sc int, family string, hist []histStep, progs [][]kop) {
+		budget, budget1 := budget, budget1
+		if len(progs) > 2 { // three handles: far more schedules, smaller budgets
+			budget, budget1 = 24, 40
+			if thorough {
+				budget, budget1 = 250, 400
+			}
+		}
+		run := func(prefix []int) *c17Trace {
+			inner, _ := replayHist(hist)
+			return c17Exec(inner, 1, progs, 0, c17Prefix(prefix))
+		}
+		trs, complete := c17Explore(run, -1, budget)
+		if complete {
+			rep.Count(family + ":schedules-exhaustive")
+		} else {
+			rep.Count(family + ":schedules-exhaustive-capped")
+			t1, c1 := c17Explore(run, 1, budget1)
+			trs = append(trs[:8], t1...) // a few of the unfinished depth-first enumeration + the bounded one
+			if c1 {
+				rep.Count(family + ":schedules-all-single-preemption")
+			} else {
+				rep.Count(family + ":schedules-single-preemption-capped")
+			}
+		}
+		for _, tr := range trs {
+			c17Case(rep, sc, family, hist, progs, tr)
+		}
+	}
+
+	// ---- (A) creation races ----
+	base := c17CreationPrograms(&ord, thorough)
+	hists := [][]histStep{nil, {{o: kop{kind: opGen, rid: 2, ord: 900}}}} // empty store / another ring exists
+	sc := 0
+	for i := range base {
+		for j := i; j < len(base); j++ {
+			progs := [][]kop{c17Fresh(base[i], &ord), c17Fresh(base[j], &ord)}
+			explore(sc, "creation", hists[(i+j)%2], progs)
+			sc++
+		}
+	}
+	nthree := 2
+	if thorough {
+		nthree = 8
+	}
+	for k := 0; k < nthree; k++ { // three handles racing on the creation
+		progs := [][]kop{c17Fresh(base[r.Intn(len(base))], &ord), c17Fresh(base[r.Intn(len(base))], &ord), c17Fresh(base[r.Intn(4)], &ord)}
+		explore(sc, "creation3", hists[k%2], progs)
+		sc++
+	}
+	// sampled schedules with a scheduled reader on a ring that does not exist yet
+	for k := 0; k < n; k++ {
+		progs := [][]kop{c17Fresh(base[1+r.Intn(3)], &ord), c17Fresh(base[r.Intn(len(base))], &ord)}
+		var wish []int
+		for j, sl := 0, 4+r.Intn(30); j < sl; j++ {
+			wish = append(wish, r.Intn(3))
+		}
+		inner, _ := replayHist(hists[k%2])
+		c17Case(rep, sc, "creation-reader", hists[k%2], progs, c17Exec(inner, 1, progs, 3, c17Wish(wish)))
+		sc++
+	}
+
+	// ---- (B) existing ring ----
+	for k := 0; k < n; k++ {
 		hist := []histStep{{o: kop{kind: opGen, rid: 1, ord: ord + 1}}}
 		nkeys := 1
 		for i, hl := 0, r.Intn(3); i < hl; i++ {
@@ -196,7 +471,10 @@ func runC17(rep *vh.Report, r *vh.Rng, n int, thorough bool) {
 			nwr = 3
 		}
 		progs := make([][]kop, nwr)
+		var opens []int
 		for w := range progs {
+			progs[w] = []kop{{kind: opOpen, rid: 1}}
+			opens = append(opens, w, w, w) // Lock, Get, Unlock: every writer opens the ring first
 			for j, pl := 0, 1+r.Intn(2); j < pl; j++ {
 				var o kop
 				for {
@@ -209,153 +487,292 @@ func runC17(rep *vh.Report, r *vh.Rng, n int, thorough bool) {
 				progs[w] = append(progs[w], o)
 			}
 		}
-		var scheds [][]int
-		if thorough && nwr == 2 && len(progs[0]) == 1 && len(progs[1]) == 1 {
-			scheds = interleavings(5, 5) // every interleaving of the two locked sections' calls
-			rep.Count("schedules:exhaustive-2x1")
-		} else {
-			ns := 6
-			if thorough {
-				ns = 40
-			}
-			for k := 0; k < ns; k++ {
-				var s []int
-				for j, sl := 0, 4+r.Intn(24); j < sl; j++ {
-					s = append(s, r.Intn(nwr+1))
-				}
-				scheds = append(scheds, s)
-			}
-			rep.Count("schedules:sampled")
+		ns := 4
+		if thorough {
+			ns = 40
 		}
-		for _, sched := range scheds {
-			if thorough && len(scheds) > 100 { // sprinkle reader steps into the exhaustive schedules
-				var s2 []int
-				for _, i := range sched {
-					s2 = append(s2, i)
-					if r.Intn(3) == 0 {
-						s2 = append(s2, nwr)
-					}
-				}
-				sched = s2
+		for q := 0; q < ns; q++ {
+			wish := append([]int{}, opens...)
+			if q%4 == 3 {
+				wish = nil // the opens are interleaved with the operations as well
 			}
-			c17Case(rep, sc, hist, progs, sched)
+			for j, sl := 0, 4+r.Intn(24); j < sl; j++ {
+				wish = append(wish, r.Intn(nwr+1))
+			}
+			inner, _ := replayHist(hist)
+			c17Case(rep, sc, "existing-sampled", hist, progs, c17Exec(inner, 1, progs, 3, c17Wish(wish)))
 		}
+		if nwr == 2 && len(progs[0])+len(progs[1]) <= 5 {
+			explore(sc, "existing", hist, progs)
+		}
+		sc++
 	}
 }
 
-func c17Case(rep *vh.Report, sc int, hist []histStep, progs [][]kop, sched []int) {
-	inner, _ := replayHist(hist)
-	clean := vh.NewKswHandle(inner)
-	pre, _ := vh.KswAbstract(inner, clean)
-	ws, rd, granted := c17Run(inner, 1, progs, 3, sched)
-	post, err := vh.KswAbstract(inner, clean)
-	var ps, gs []string
-	for _, p := range progs {
-		var os []string
-		for _, o := range p {
-			os = append(os, coqWop(o))
+// ---------- one executed schedule: record for the model replay + the property's oracle ----------
+
+// at most c17MaxPerClass violations of one class are reported with their replay (one broken lock scope
+// fails hundreds of schedules); the others are counted in the distribution
+const c17MaxPerClass = 6
+
+var c17Reported = map[string]int{}
+
+func c17Case(rep *vh.Report, sc int, family string, hist []histStep, progs [][]kop, tr *c17Trace) {
+	violate := func(class, what, replay string) {
+		c17Reported[class]++
+		if c17Reported[class] <= c17MaxPerClass {
+			rep.Violate(class, what, replay)
+		} else {
+			rep.Count("violations-not-listed:" + class)
 		}
-		ps = append(ps, "["+strings.Join(os, "; ")+"]")
 	}
-	for _, g := range granted {
-		gs = append(gs, fmt.Sprintf("%d%%nat", g))
+	// the storage before (replayed again: the run has consumed its own copy)
+	inner0, _ := replayHist(hist)
+	clean := vh.NewKswHandle(inner0)
+	pre, _ := vh.KswAbstract(inner0, clean)
+	inner := tr.ws[0].p.h.B.Inner
+	post, err := vh.KswAbstract(inner, clean)
+
+	var gs, sch []string
+	for _, s := range tr.steps {
+		sch = append(sch, fmt.Sprintf("%d:%s", s.h, s.call))
+		if s.h < len(tr.ws) {
+			gs = append(gs, fmt.Sprintf("(%d%%nat, %d)", s.h, c17Tag(s.call)))
+		}
 	}
-	opTerm := fmt.Sprintf("Sched %s 1 [%s] [%s]", coqHist(hist), strings.Join(ps, "; "), strings.Join(gs, "; "))
-	replay := fmt.Sprintf("%s requested schedule %v", opTerm, sched)
+	opTerm := fmt.Sprintf("Sched %s %s [%s]", coqHist(hist), c17ProgString(progs), strings.Join(gs, "; "))
+	var outs []string
+	for wi, w := range tr.ws {
+		for _, op := range w.ops {
+			res := "err"
+			if op.res == 0 {
+				res = fmt.Sprintf("ok(%d)", op.val)
+			}
+			outs = append(outs, fmt.Sprintf("h%d %s -> %s", wi, coqHop(op.o), res))
+		}
+	}
+	replay := fmt.Sprintf("%s\n  schedule (handle:back-end call, handle %d = reader): %s\n  results: %s", opTerm, len(tr.ws), strings.Join(sch, " "), strings.Join(outs, "; "))
 	if err != nil {
-		rep.Violate("c17-storage-unreadable", err.Error(), replay)
+		violate("c17-storage-unreadable", err.Error(), replay)
 		return
 	}
-	vals := [][]byte{vh.KswEncodeFiles(post)}
-	for _, w := range ws {
+	vals := [][]byte{(&vh.KswEnc{}).N(0).Bytes(), vh.KswEncodeFiles(post)}
+	for _, w := range tr.ws {
 		e := &vh.KswEnc{}
-		e.N(len(w.prog) - len(w.outs))
-		for _, o := range w.outs {
-			if o[0] == 0 {
-				e.N(0).N(o[1])
+		e.N(len(w.prog) - len(w.ops))
+		for _, op := range w.ops {
+			if op.res == 0 {
+				e.N(0).N(op.val)
 			} else {
 				e.N(1)
 			}
 		}
-		cur, keys := vh.KswView(w.p.slots[0])
-		e.Ring(cur, keys)
+		if w.p.slots[0] != nil {
+			cur, keys := vh.KswView(w.p.slots[0])
+			e.N(1).Ring(cur, keys)
+		} else {
+			e.N(0)
+		}
 		vals = append(vals, e.Bytes())
 	}
-	rep.Add(fmt.Sprintf("sc%d writers=%d steps=%d", sc, len(ws), len(granted)), opTerm, vh.Ok(vals...))
-	rep.Count(fmt.Sprintf("writers:%d", len(ws)))
+	rep.Add(fmt.Sprintf("sc%d %s writers=%d steps=%d", sc, family, len(tr.ws), len(gs)), opTerm, vh.Ok(vals...))
+	rep.Count(family + fmt.Sprintf(":writers-%d", len(tr.ws)))
+	pauses := 0
+	for k, s := range tr.steps {
+		if k > 0 && s.curEnabled && s.h != s.order[0] {
+			pauses++
+			rep.Count("paused-after:" + tr.steps[k-1].call)
+		}
+	}
+	rep.Count(fmt.Sprintf("preemptions:%d", min(pauses, 4)))
 
-	// ---- oracle ----
+	// ---- oracle (on the implementation only) ----
 	before, after := ringOf(pre, 0, 1), ringOf(post, 0, 1)
+	var beforeKeys []vh.KswKey
+	beforeCur := asn1.NoKey
+	if before != nil {
+		beforeKeys, beforeCur = before.Keys, before.Cur
+	}
+	// no writer is left behind
 	rep.OracleChecks++
-	if after == nil || !after.Valid || before == nil {
-		rep.Violate("c17-ring-unverifiable", "the ring does not verify after the concurrent run", replay)
+	if tr.stuck {
+		violate("c17-writer-stuck", "the handles block each other for ever", replay)
+	}
+	anyOpen := false
+	for wi, w := range tr.ws {
+		rep.OracleChecks++
+		if len(w.ops) != len(w.prog) {
+			violate("c17-writer-stuck", fmt.Sprintf("handle %d finished %d of %d operations", wi, len(w.ops), len(w.prog)), replay)
+		}
+		for _, op := range w.ops {
+			if op.res == 0 && (op.o.kind == opOpen || op.o.kind == opGen || op.o.kind == opDestroyCur) {
+				anyOpen = true
+			}
+		}
+	}
+	rep.OracleChecks++
+	if after == nil {
+		if before != nil || anyOpen {
+			violate("c17-ring-vanished", "the ring file does not exist after the run although it existed before or was opened successfully", replay)
+		}
+		return
+	}
+	if !after.Valid {
+		violate("c17-ring-unverifiable", "the ring does not verify after the concurrent run", replay)
 		return
 	}
 	// seqnums unique and increasing, earlier keys still there
 	for i, k := range after.Keys {
 		if i > 0 && after.Keys[i-1].Seq >= k.Seq {
-			rep.Violate("c17-seqnums-not-increasing", fmt.Sprintf("seqnums %v", after.Keys), replay)
+			violate("c17-seqnums-not-increasing", fmt.Sprintf("seqnums %v", after.Keys), replay)
 		}
-		if i < len(before.Keys) && before.Keys[i].Seq != k.Seq {
-			rep.Violate("c17-seqnum-changed", fmt.Sprintf("before %v after %v", before.Keys, after.Keys), replay)
+		if i < len(beforeKeys) && beforeKeys[i].Seq != k.Seq {
+			violate("c17-seqnum-changed", fmt.Sprintf("before %v after %v", beforeKeys, after.Keys), replay)
 		}
 	}
-	// every successful operation is reflected exactly once, failed ones not at all
-	okAdds, destroyed := 0, map[int]bool{}
-	for wi, w := range ws {
-		for oi, out := range w.outs {
-			o := w.prog[oi]
+	// every successful operation is reflected exactly once, failed ring operations not at all
+	type c17Set struct { // an operation that made a key current
+		w, idx, start, end, seq int
+		known             bool
+	}
+	var sets []c17Set
+	known := map[int]bool{}
+	for _, k := range beforeKeys {
+		known[k.Ord] = true
+	}
+	okNew, failedGens, visibleFailedGens, missing := 0, 0, 0, 0
+	issued := map[int]int{}
+	destroyed := map[int]bool{}
+	destroyedNew := 0
+	for i, k := range after.Keys {
+		if i >= len(beforeKeys) && k.State == int(api.KeyDestroyed) && k.Ord == 0 {
+			destroyedNew++
+		}
+	}
+	for wi, w := range tr.ws {
+		for oi, op := range w.ops {
+			o := op.o
 			rep.OracleChecks++
 			switch o.kind {
-			case opAdd:
-				cnt := 0
+			case opAdd, opGen:
+				known[o.ord] = true
+				cnt, at := 0, 0
 				for _, k := range after.Keys {
 					if k.Ord == o.ord {
 						cnt++
-						if out[0] == 0 && k.Seq != out[1] {
-							rep.Violate("c17-update-misplaced", fmt.Sprintf("writer %d: AddKey returned seqnum %d but its key is at %d", wi, out[1], k.Seq), replay)
-						}
+						at = k.Seq
 					}
 				}
-				if out[0] == 0 {
-					okAdds++
+				if cnt > 1 {
+					violate("c17-update-duplicated", fmt.Sprintf("handle %d: key ordinal %d is %d times in the final ring %v", wi, o.ord, cnt, after.Keys), replay)
+				}
+				switch {
+				case op.res == 0 && o.kind == opAdd:
+					okNew++
 					rep.Count("add:ok")
-					if cnt == 0 { // the new key may have been destroyed by a later successful DestroyKey of another writer
-						for _, w2 := range ws {
-							for oi2, out2 := range w2.outs {
-								if w2.prog[oi2].kind == opDestroy && out2[0] == 0 && w2.prog[oi2].seq == out[1] {
-									for _, k := range after.Keys {
-										if k.Seq == out[1] && k.State == int(api.KeyDestroyed) {
-											cnt = 1
-										}
-									}
-								}
+					if prev, dup := issued[op.val]; dup {
+						violate("c17-seqnum-issued-twice", fmt.Sprintf("two successful AddKey calls (handles %d and %d) both returned seqnum %d", prev, wi, op.val), replay)
+					}
+					issued[op.val] = wi
+					if cnt == 1 && at != op.val {
+						violate("c17-update-misplaced", fmt.Sprintf("handle %d: AddKey returned seqnum %d but its key is at %d", wi, op.val, at), replay)
+					}
+					if cnt == 0 {
+						gone := false // the only excuse: a later successful destroy of exactly this key
+						for _, k := range after.Keys {
+							if k.Seq == op.val && k.State == int(api.KeyDestroyed) && k.Ord == 0 {
+								gone = true
 							}
 						}
+						if !gone {
+							violate("c17-update-lost", fmt.Sprintf("handle %d: successful AddKey -> seqnum %d (key ordinal %d) is not in the final ring %v", wi, op.val, o.ord, after.Keys), replay)
+						} else {
+							missing++
+						}
 					}
-					if cnt != 1 {
-						rep.Violate("c17-update-lost", fmt.Sprintf("writer %d: successful AddKey(ordinal %d) is reflected %d times in the final ring %v", wi, o.ord, cnt, after.Keys), replay)
+				case op.res == 0 && o.kind == opGen:
+					okNew++
+					rep.Count("gen:ok")
+					if cnt == 0 {
+						missing++
 					}
-				} else {
+					sets = append(sets, c17Set{wi, oi, op.start, op.end, at, cnt == 1})
+				case o.kind == opAdd:
 					rep.Count("add:err")
 					if cnt != 0 {
-						rep.Violate("c17-failed-update-visible", fmt.Sprintf("writer %d: failed AddKey(ordinal %d) is in the final ring", wi, o.ord), replay)
+						violate("c17-failed-update-visible", fmt.Sprintf("handle %d: failed AddKey(ordinal %d) is in the final ring", wi, o.ord), replay)
+					}
+				default: // failed generate: open+AddKey+SetCurrent is three updates, the key may have been added
+					failedGens++
+					rep.Count("gen:err")
+					if cnt == 1 {
+						visibleFailedGens++
+						rep.Count("gen:err-key-added")
 					}
 				}
+			case opSetCur:
+				if op.res == 0 {
+					rep.Count("setcurrent:ok")
+					sets = append(sets, c17Set{wi, oi, op.start, op.end, o.seq, true})
+				} else {
+					rep.Count("setcurrent:err")
+				}
 			case opDestroy:
-				if out[0] == 0 {
+				if op.res == 0 {
 					destroyed[o.seq] = true
+				}
+			case opDestroyCur:
+				if op.res == 0 {
+					rep.Count("destroycur:ok")
 				}
 			}
 		}
 	}
 	rep.OracleChecks++
-	if len(after.Keys) != len(before.Keys)+okAdds {
-		rep.Violate("c17-update-lost", fmt.Sprintf("%d keys before, %d successful AddKey, %d keys after", len(before.Keys), okAdds, len(after.Keys)), replay)
+	if missing > destroyedNew {
+		violate("c17-update-lost", fmt.Sprintf("%d successful AddKey/generate calls have no key in the final ring %v (%d new keys are destroyed)", missing, after.Keys, destroyedNew), replay)
+	}
+	newKeys := len(after.Keys) - len(beforeKeys)
+	rep.OracleChecks++
+	if newKeys < okNew+visibleFailedGens || newKeys > okNew+failedGens {
+		violate("c17-update-lost", fmt.Sprintf("%d keys before, %d successful AddKey/generate (+%d failed generate calls, %d of them left their key), %d keys after: %v", len(beforeKeys), okNew, failedGens, visibleFailedGens, len(after.Keys), after.Keys), replay)
 	}
 	for _, k := range after.Keys {
+		rep.OracleChecks++
+		if k.Ord != 0 && !known[k.Ord] {
+			violate("c17-foreign-key", fmt.Sprintf("key %+v was added by nobody", k), replay)
+		}
 		if destroyed[k.Seq] && (k.State != int(api.KeyDestroyed) || k.Ord != 0) {
-			rep.Violate("c17-update-lost", fmt.Sprintf("successful DestroyKey(%d) is not reflected: %+v", k.Seq, k), replay)
+			violate("c17-update-lost", fmt.Sprintf("successful DestroyKey(%d) is not reflected: %+v", k.Seq, k), replay)
+		}
+	}
+	// SetCurrent (explicit, or the last step of generate): the final current key is the one of a
+	// successful SetCurrent that no other successful SetCurrent strictly follows in real time
+	rep.OracleChecks++
+	if len(sets) == 0 {
+		if after.Cur != beforeCur {
+			violate("c17-current-changed", fmt.Sprintf("nobody set the current key, it was %d and is %d", beforeCur, after.Cur), replay)
+		}
+	} else {
+		var allowed []int
+		okCur := false
+		for _, x := range sets {
+			last := true
+			for _, y := range sets {
+				if (y.w == x.w && y.idx > x.idx) || (y.w != x.w && x.end < y.start) {
+					last = false
+				}
+			}
+			if last {
+				allowed = append(allowed, x.seq)
+				if !x.known || x.seq == after.Cur {
+					okCur = true
+				}
+			}
+		}
+		sort.Ints(allowed)
+		if !okCur {
+			violate("c17-setcurrent-lost", fmt.Sprintf("final current key %d; the successful SetCurrent calls that nothing follows set %v", after.Cur, allowed), replay)
 		}
 	}
 	if after.Cur != asn1.NoKey {
@@ -364,35 +781,77 @@ func c17Case(rep *vh.Report, sc int, hist []histStep, progs [][]kop, sched []int
 			found = found || k.Seq == after.Cur
 		}
 		if !found {
-			rep.Violate("c17-current-dangling", fmt.Sprintf("current %d", after.Cur), replay)
+			violate("c17-current-dangling", fmt.Sprintf("current %d", after.Cur), replay)
 		}
 	}
-	// readers: every observation verified and is a complete ring between the initial and the final one
-	last := len(before.Keys)
-	for i, o := range rd.obs {
+	// what a reader would get whenever the exclusive lock is free: once there, the ring file stays,
+	// always verifies, and what has been committed to it never disappears (in particular the file
+	// is never replaced by an empty ring)
+	rep.OracleChecks++
+	if tr.obsErr != "" {
+		violate("c17-storage-unreadable", tr.obsErr, replay)
+	}
+	var prev *vh.KswFile
+	for _, ob := range tr.obs {
 		rep.OracleChecks++
-		if o == nil {
-			rep.Violate("c17-reader-saw-unverifiable-ring", fmt.Sprintf("read %d failed: %v", i, rd.errs), replay)
+		f := ob.f
+		if f == nil {
+			if prev != nil {
+				violate("c17-ring-vanished", fmt.Sprintf("after step %d the ring file is gone", ob.turn), replay)
+			}
 			continue
 		}
-		if len(o.Keys) < last || len(o.Keys) > len(after.Keys) {
-			rep.Violate("c17-reader-saw-partial-ring", fmt.Sprintf("read %d saw %d keys (previous %d, final %d)", i, len(o.Keys), last, len(after.Keys)), replay)
-			last = len(o.Keys)
+		if !f.Valid {
+			violate("c17-reader-saw-unverifiable-ring", fmt.Sprintf("after step %d the ring file does not verify", ob.turn), replay)
 			continue
 		}
-		last = len(o.Keys)
-		for j, k := range o.Keys {
-			if k.Seq != after.Keys[j].Seq {
-				rep.Violate("c17-reader-saw-partial-ring", fmt.Sprintf("read %d: seqnums differ from the final ring", i), replay)
-				break
+		if prev != nil {
+			bad := len(f.Keys) < len(prev.Keys)
+			for j := 0; j < len(prev.Keys) && j < len(f.Keys); j++ {
+				p, q := prev.Keys[j], f.Keys[j]
+				if p.Seq != q.Seq || (p.Ord != q.Ord && !(q.Ord == 0 && q.State == int(api.KeyDestroyed))) {
+					bad = true
+				}
+			}
+			if bad {
+				violate("c17-committed-update-vanished", fmt.Sprintf("step %d (%d:%s) replaced the stored ring %v current=%d by %v current=%d", ob.turn, tr.steps[ob.turn-1].h, tr.steps[ob.turn-1].call, prev.Keys, prev.Cur, f.Keys, f.Cur), replay)
 			}
 		}
+		prev = f
 	}
-	// no writer is left with pending transactions
-	for wi, w := range ws {
+	// the scheduled reader: every OpenKeyRing returns a verified complete ring between the initial
+	// and the final one (or "does not exist" as long as nobody has created it)
+	if tr.rd != nil {
+		last := len(beforeKeys)
+		seen := before != nil
+		for i, o := range tr.rd.obs {
+			rep.OracleChecks++
+			if o == nil {
+				if tr.rd.miss[i] && !seen {
+					rep.Count("reader:not-yet-created")
+					continue
+				}
+				violate("c17-reader-saw-unverifiable-ring", fmt.Sprintf("read %d failed: %v", i, tr.rd.errs), replay)
+				continue
+			}
+			seen = true
+			rep.Count("reader:ok")
+			if len(o.Keys) < last || len(o.Keys) > len(after.Keys) {
+				violate("c17-reader-saw-partial-ring", fmt.Sprintf("read %d saw %d keys (previous %d, final %d)", i, len(o.Keys), last, len(after.Keys)), replay)
+				last = len(o.Keys)
+				continue
+			}
+			last = len(o.Keys)
+			for j, k := range o.Keys {
+				if k.Seq != after.Keys[j].Seq {
+					violate("c17-reader-saw-partial-ring", fmt.Sprintf("read %d: seqnums differ from the final ring", i), replay)
+					break
+				}
+			}
+		}
 		rep.OracleChecks++
-		if len(w.outs) != len(w.prog) {
-			rep.Violate("c17-writer-stuck", fmt.Sprintf("writer %d finished %d of %d operations", wi, len(w.outs), len(w.prog)), replay)
+		if len(tr.rd.obs) != tr.rd.reads {
+			violate("c17-writer-stuck", "the reader did not finish", replay)
 		}
 	}
 }
